@@ -18,6 +18,12 @@ from harness import core
 from harness.expr_tlc import parse_flat_record, step_violations
 
 S_INVARIANTS = {"Inv_SpecMatchesPython", "Inv_Defined"}
+# descriptions carry non-ASCII characters: TLC must read the data file and write the cases as UTF-8
+JVM = ("-Xmx8g", "-Dfile.encoding=UTF-8")
+
+
+def read_json_utf8(p: pathlib.Path) -> Any:
+    return json.loads(p.read_text(encoding="utf-8"))
 
 
 def main() -> int:
@@ -34,8 +40,8 @@ def main() -> int:
     else:
         # M — design level: the generated traversal (lazy pre-order, paths, inherited invariants, raising) refines
         # the declarative Expected / MustRaise; the soundness of the typing that selects candidate invariants is C07's M
-        ck.model_check("VerifAlgo", "MC_VerifAlgo%s.cfg" % suffix, "the traversal machine reports exactly Verif!Expected, raises iff MustRaise, terminates", workers=4, timeout=1500, deadlock=True)
-        g = ck.tlc("VerifGen", "VerifGen%s.cfg" % suffix, what="G: models x instances x function arguments", env={"VERIF_OUT": str(cases_p)}, count=False, timeout=1500)
+        ck.model_check("VerifAlgo", "MC_VerifAlgo%s.cfg" % suffix, "the traversal machine reports exactly Verif!Expected, raises iff MustRaise, terminates", workers=4, timeout=1500, deadlock=True, jvm=JVM)
+        g = ck.tlc("VerifGen", "VerifGen%s.cfg" % suffix, what="G: models x instances x function arguments", env={"VERIF_OUT": str(cases_p)}, count=False, timeout=1500, jvm=JVM)
         n_pool = 0
         for line in g.printed:
             parts = line.replace(">>", "").split(",")
@@ -44,7 +50,7 @@ def main() -> int:
     # R
     out_p = ck.work / "out.json"
     ck.impl("harness.run_c08", [str(cases_p), str(out_p)], timeout=3000)
-    out = core.read_json(out_p)
+    out = read_json_utf8(out_p)
     models, obs, fobs, info = out["models"], out["obs"], out["fobs"], out["info"]
     models_p = ck.work / "models_run.json"
     core.write_json(models_p, models)
@@ -55,7 +61,7 @@ def main() -> int:
     for ci in range(len(chunks)):
         pp = ck.work / ("obs_%d.json" % ci)
         core.write_json(pp, [{k: o[k] for k in ("m", "inst", "outcome", "errors", "py_outcome", "py_errors")} for o in chunks[ci]])
-        res = ck.tlc("VerifTrace", what="V: verify(instance) = {(path, description) : invariant false}; raises only if an invariant raises", env={"VERIF_MODELS": str(models_p), "VERIF_OBS": str(pp)}, cont=True, workers=4, timeout=3000)
+        res = ck.tlc("VerifTrace", what="V: verify(instance) = {(path, description) : invariant false}; raises only if an invariant raises", env={"VERIF_MODELS": str(models_p), "VERIF_OBS": str(pp)}, cont=True, workers=4, timeout=3000, jvm=JVM)
         if res.distinct != 2 * len(chunks[ci]):
             raise core.MachineryFailure("TLC consumed %d of %d observations" % (res.distinct // 2, len(chunks[ci])))
         reported = {}
@@ -70,7 +76,11 @@ def main() -> int:
             if not rec["raise_ok"]:
                 failing.append(("Inv_RaisesOnlyIfInvariantRaises", {"clause": "Inv_RaisesOnlyIfInvariantRaises", "kind": "raised_without_cause"}))
             if not rec["exact_ok"]:
-                failing.append(("Inv_ErrorsExactlyFalseInvariants", {"clause": "Inv_ErrorsExactlyFalseInvariants", "kind": rec.get("kind"), "feature": rec.get("feature"), "owner": rec.get("owner"), "inherited": rec.get("inherited")}))
+                if rec.get("kind") == "description":
+                    # the cause is not the description verbatim: keyed by the shape of the description
+                    failing.append(("Inv_ErrorsExactlyFalseInvariants", {"clause": "Inv_ErrorsExactlyFalseInvariants", "kind": "description", "dshape": rec.get("dshape"), "owner": rec.get("owner")}))
+                else:
+                    failing.append(("Inv_ErrorsExactlyFalseInvariants", {"clause": "Inv_ErrorsExactlyFalseInvariants", "kind": rec.get("kind"), "feature": rec.get("feature"), "owner": rec.get("owner"), "inherited": rec.get("inherited")}))
             if first_inv not in [f[0] for f in failing]:
                 raise core.MachineryFailure("verdict record and reported invariant disagree: %s vs %s" % (first_inv, rec))
             for inv, key in failing:
@@ -89,7 +99,7 @@ def main() -> int:
         bad["errors"] = bad["errors"][1:]
         pp = ck.work / "obs_negctl.json"
         core.write_json(pp, [bad])
-        res = ck.tlc("VerifTrace", what="negative control: an observation with one error removed is rejected", env={"VERIF_MODELS": str(models_p), "VERIF_OBS": str(pp)}, cont=True, workers=1, timeout=600, count=False)
+        res = ck.tlc("VerifTrace", what="negative control: an observation with one error removed is rejected", env={"VERIF_MODELS": str(models_p), "VERIF_OBS": str(pp)}, cont=True, workers=1, timeout=600, count=False, jvm=JVM)
         if not any(v["invariant"] == "Inv_ErrorsExactlyFalseInvariants" for v in step_violations(res.stdout)):
             raise core.MachineryFailure("negative control: TLC did not reject a corrupted observation")
 
@@ -97,7 +107,7 @@ def main() -> int:
     if fobs:
         fp = ck.work / "fobs.json"
         core.write_json(fp, fobs)
-        res = ck.tlc("VerifFnTrace", what="V: generated pattern/transpilable functions = FullMatch / Eval(body)", env={"VERIF_MODELS": str(models_p), "VERIF_OBS": str(fp)}, cont=True, workers=4, timeout=3000)
+        res = ck.tlc("VerifFnTrace", what="V: generated pattern/transpilable functions = FullMatch / Eval(body)", env={"VERIF_MODELS": str(models_p), "VERIF_OBS": str(fp)}, cont=True, workers=4, timeout=3000, jvm=JVM)
         if res.distinct != 2 * len(fobs):
             raise core.MachineryFailure("TLC consumed %d of %d function observations" % (res.distinct // 2, len(fobs)))
         for v in step_violations(res.stdout):
